@@ -299,6 +299,13 @@ def override_consistency_rule(mod, spc, storers, rep, rid):
                 n += 1
                 consults = any(x["type"] == "CallExpression" and method_call(x) and method_call(x)[1] in getters and method_call(x)[2]
                                and s(method_call(x)[2][0]) == s(name_e) for x in walk(fn))
+                mc_ = method_call(call)
+                if not consults and s(mc_[0]) == "this" and mc_[1] in helpers:
+                    # the helper that stores the definition consults the override for the name it is handed
+                    hfn = c.methods[mc_[1]]["function"]
+                    hp = ts_common.fn_params(hfn)[helpers[mc_[1]]]
+                    consults = any(x["type"] == "CallExpression" and method_call(x) and method_call(x)[1] in getters and method_call(x)[2]
+                                   and s(method_call(x)[2][0]) == hp for x in walk(hfn))
                 rep.ob(rid, "%s.%s/consults-override" % (cname, mname), consults,
                        "%s.%s stores the definition of the named type `%s` without consulting the schema override for that name, while other paths do: the exported definition then depends on which parser was printed first" % (cname, mname, s(name_e)),
                        mod.loc(call), sample={"site": "%s.%s" % (cname, mname), "name": s(name_e)})
